@@ -17,7 +17,7 @@ REPO = os.environ.get('QX_REPO', '/repo')
 INCLUDE = os.path.join(REPO, 'Include')
 
 DEFAULT_CHECKS = ['--bounds-check', '--pointer-check', '--div-by-zero-check', '--pointer-overflow-check']
-MEM_LIMIT = 24 * 1024 ** 3
+MEM_LIMIT = 14 * 1024 ** 3
 
 
 class Undecided(Exception):
@@ -58,6 +58,8 @@ def sh(cmd, timeout, cwd=None, env=None):
     try:
         r = subprocess.run(cmd, stdout=subprocess.PIPE, stderr=subprocess.PIPE, timeout=timeout, cwd=cwd, env=env,
                            preexec_fn=limit_resources)
+        if r.returncode in (-9, 137):
+            return -8, r.stdout.decode(errors='replace'), 'KILLED (memory limit) ' + r.stderr.decode(errors='replace')[-300:], time.time() - t0
         return r.returncode, r.stdout.decode(errors='replace'), r.stderr.decode(errors='replace'), time.time() - t0
     except subprocess.TimeoutExpired as e:
         return -9, (e.stdout or b'').decode(errors='replace'), 'TIMEOUT after %ss' % timeout, time.time() - t0
@@ -368,7 +370,7 @@ def run_job(job, unit, workdir, log=print):
                 for p in g:
                     c += ['--property', p]
                 return sh(c, job.get('timeout', 300), env=env)
-            with ThreadPoolExecutor(max_workers=len(groups)) as ex:
+            with ThreadPoolExecutor(max_workers=min(len(groups), int(job.get('split_par', 8)))) as ex:
                 outs = list(ex.map(one, groups))
             res.cmds.append(' '.join(cmd) + '   # split into %d property groups' % len(groups))
             res.solver_seconds = time.time() - t0
@@ -376,6 +378,8 @@ def run_job(job, unit, workdir, log=print):
             for (rc, out, err, dt) in outs:
                 if rc == -9:
                     raise Undecided('solver timeout after %ss (split group)' % job.get('timeout', 300))
+                if rc == -8:
+                    raise Undecided('solver killed: out of memory (split group)')
                 r_, s_, m_ = parse_cbmc_json(out)
                 if r_ is None or s_ is None or rc not in (0, 10):
                     raise Undecided('cbmc error rc=%s: %s' % (rc, ('\n'.join(m_ or []) or err or out)[-2000:]))
@@ -394,6 +398,8 @@ def run_job(job, unit, workdir, log=print):
                 f.write(out)
             if rc == -9:
                 raise Undecided('solver timeout after %ss' % job.get('timeout', 300))
+            if rc == -8:
+                raise Undecided('solver killed: out of memory')
             results, status, msgs = parse_cbmc_json(out)
             res.log = '\n'.join(msgs)[-4000:]
             if results is None or status is None or (rc not in (0, 10)):
@@ -442,7 +448,7 @@ _cap = {'free': 16}
 
 
 def run_job_weighted(job, unit, workdir):
-    w = min(int(job.get('weight', 1)), 16)
+    w = min(int(job.get('weight', min(8, int(job.get('split', 1) or 1)))), 16)
     with _cap_lock:
         while _cap['free'] < w:
             _cap_lock.wait()
